@@ -207,6 +207,19 @@ def decided_outcome(summary):
     return ("falloff", None)
 
 
+def strict_outcome(summary):
+    """For fully scripted scenarios: the first exit whose guard is not False decides; if that guard is not True the scenario
+    asked the code a question the script does not answer -- ("undecided", that guard)."""
+    for ex in summary.exits:
+        g = tm.land(list(ex.guard))
+        if g is False:
+            continue
+        if g is True:
+            return (ex.kind, ex.value if ex.kind == "return" else ex.exc)
+        return ("undecided", g)
+    return ("falloff", None)
+
+
 def free_bvs(v, memo=None):
     """Depths of bound-variable leaves occurring free in v (not bound by an enclosing map / fold / loopout)."""
     memo = {} if memo is None else memo
